@@ -34,12 +34,16 @@ static void havoc_ghosts(void)
 #define PS_PARAMS double* x, double* y, double* s, double* r, int* cst, int* rst, int nC, int nR, \
                   double feastol, double eps, int isOptimal
 #define PS_ARGS x, y, s, r, cst, rst, nC, nR, feastol, eps, isOptimal
-#define PS_LOCALS double* x; double* y; double* s; double* r; int* cst; int* rst; int nC, nR; double feastol, eps; int isOptimal
+/* The harness passes six DISTINCT typed automatic arrays of DIM entries (the logical dimensions nC, nR <= DIM are
+ * what the container models check every access against).  Typed arrays instead of __CPROVER_is_fresh byte
+ * objects: is_fresh objects are untyped, every double access through them is a byte-extract at a symbolic
+ * offset and the same proofs take 6-10 times longer. */
+#define PS_LOCALS double x[DIM]; double y[DIM]; double s[DIM]; double r[DIM]; int cst[DIM]; int rst[DIM]; int nC, nR; double feastol, eps; int isOptimal
 /* well-formed vectors: x, r, cst have nC entries; y, s, rst have nR entries; tolerances positive */
 #define PS_WF (0 < nC && nC <= DIM && 0 < nR && nR <= DIM \
-   && __CPROVER_is_fresh(x, DIM * sizeof(double)) && __CPROVER_is_fresh(r, DIM * sizeof(double)) \
-   && __CPROVER_is_fresh(y, DIM * sizeof(double)) && __CPROVER_is_fresh(s, DIM * sizeof(double)) \
-   && __CPROVER_is_fresh(cst, DIM * sizeof(int)) && __CPROVER_is_fresh(rst, DIM * sizeof(int)) \
+   && __CPROVER_rw_ok(x, DIM * sizeof(double)) && __CPROVER_rw_ok(r, DIM * sizeof(double)) \
+   && __CPROVER_rw_ok(y, DIM * sizeof(double)) && __CPROVER_rw_ok(s, DIM * sizeof(double)) \
+   && __CPROVER_rw_ok(cst, DIM * sizeof(int)) && __CPROVER_rw_ok(rst, DIM * sizeof(int)) \
    && feastol > 0.0 && eps > 0.0)
 /* stored sparse vector: n entries in two fresh parallel arrays */
 #define SV_WF(idx, val, n) (0 <= (n) && (n) <= CAP \
